@@ -161,9 +161,9 @@ Fixpoint rank_bucket (rank : Q) (r : ext) (cum : Q) (bs : list bucket) : bool :=
       || rank_bucket rank r (cum + bc b) rest
   end.
 
-Definition holds_q (h : hist) (qr : Q * res) : bool :=
+Definition holds_q (h : hist) (wf : bool) (qr : Q * res) : bool :=
   let '(q, r) := qr in
-  if in01 q && wf_hist h then
+  if in01 q && wf then
     match r with
     | RNaN => false
     | R e => rank_bucket (q * h_count h) e 0 (h_buckets h)
@@ -201,7 +201,7 @@ Definition holds_n (c : ncase) : bool :=
   (* monotone in q: for consistent histograms, and for histograms with NaN observations *)
   (if Qeq_bool (h_count h) (sumc (h_buckets h)) || sum_nan h
    then mono_from None (map snd (n_qs c)) else true) &&
-  forallb (holds_q h) (n_qs c) &&
+  (let wf := wf_hist h in forallb (holds_q h wf) (n_qs c)) &&
   forallb (holds_f h (n_fs c)) (n_fs c).
 
 (* ================================================================ classic *)
